@@ -188,7 +188,7 @@
         match FunctionCode::from(f) { Some(x) => x, None => FunctionCode::Read }
     }
 
-    // @harness ids=C05,C07,C01 tier=quick kind=proof stubs=1 units=outstation::session::OutstationSession::classify timeout=600 note="CONFIRM first; broadcast before hashing; malformed carries the error; Repeat* IFF same sequence number AND same hash as the last valid request, carrying the stored response unchanged; READ-ness decides Read/NonRead; hash is taken over exactly the raw fragment"
+    // @harness ids=C05,C07,C04,C12,C01 tier=quick kind=proof stubs=1 units=outstation::session::OutstationSession::classify timeout=600 note="CONFIRM first; broadcast before hashing; malformed carries the error; Repeat* IFF same sequence number AND same hash as the last valid request, carrying the stored response unchanged; READ-ness decides Read/NonRead; hash is taken over exactly the raw fragment"
     #[kani::proof]
     #[kani::stub(xxhash_rust::xxh64::xxh64, stub_xxh64)]
     fn vk_c05_classify() {
